@@ -40,28 +40,28 @@ CURATED = {
         "linear_extrapolation": ("C03",), "geometric_extrapolation": ("C03",),
     },
     "resolution2d": {
-        "Pinhole2D.__init__": ("C03", "C04"), "Pinhole2D._init_data": ("C03", "C11"), "Pinhole2D._calc_res": ("C03", "C04"),
+        "Pinhole2D.__init__": ("C03", "C04"), "Pinhole2D._init_data": ("C03", "C04", "C11"), "Pinhole2D._calc_res": ("C03", "C04"),
         "Pinhole2D.apply": ("C03", "C04"), "Slit2D.__init__": ("C03",), "Slit2D.apply": ("C03",),
     },
     "sesans": {"SesansTransform.__init__": ("C19",), "SesansTransform.apply": ("C19",), "SesansTransform._set_hankel": ("C19",)},
-    "kernel": {"Kernel.Iq": ("C01", "C07", "C09"), "Kernel.Fq": ("C01", "C07", "C09", "C14")},
+    "kernel": {"Kernel.Iq": ("C01", "C07", "C08", "C09", "C11",), "Kernel.Fq": ("C01", "C07", "C08", "C09", "C11", "C14",)},
     "product": {
         "make_extra_pars": ("C07",), "make_product_info": ("C07",), "_intermediates": ("C07",), "ProductModel.__init__": ("C07",),
-        "ProductModel.make_kernel": ("C07",), "ProductKernel.__init__": ("C07",), "ProductKernel.Iq": ("C07",),
+        "ProductModel.make_kernel": ("C07",), "ProductKernel.__init__": ("C07", "C08"), "ProductKernel.Iq": ("C07", "C08", "C11",),
     },
     "mixture": {
         "make_mixture_info": ("C08",), "MixtureModel.__init__": ("C08",), "MixtureModel.make_kernel": ("C08",), "_intermediates": ("C08",),
-        "MixtureKernel.__init__": ("C08",), "MixtureKernel.Iq": ("C08",), "_MixtureParts.__init__": ("C08",), "_MixtureParts.__next__": ("C08",),
+        "MixtureKernel.__init__": ("C08",), "MixtureKernel.Iq": ("C08", "C11",), "_MixtureParts.__init__": ("C08",), "_MixtureParts.__next__": ("C08",),
         "_MixtureParts._part_details": ("C08",), "_MixtureParts._part_values": ("C08",),
     },
     "direct_model": {
-        "call_kernel": ("C01", "C10"), "call_Fq": ("C14", "C11"), "get_mesh": ("C01", "C08", "C10"), "_pop_par_weights": ("C01", "C02", "C10"),
-        "_make_sesans_transform": ("C19",), "DataMixin._interpret_data": ("C03", "C10"), "DataMixin._calc_theory": ("C03", "C10", "C19"),
+        "call_kernel": ("C01", "C10"), "call_Fq": ("C14", "C11"), "get_mesh": ("C01", "C02", "C05", "C07", "C08", "C10", "C11",), "_pop_par_weights": ("C01", "C02", "C10", "C11",),
+        "_make_sesans_transform": ("C19",), "DataMixin._interpret_data": ("C03", "C10"), "DataMixin._calc_theory": ("C03", "C10", "C11", "C19",),
         "DirectModel.__init__": ("C10",), "DirectModel.__call__": ("C10",), "_direct_calculate": ("C10",), "Iq": ("C10",), "Iqxy": ("C10",),
         "Gxi": ("C10", "C19"),
     },
     "details": {
-        "CallDetails.__init__": ("C01",), "make_details": ("C01", "C08"), "make_kernel_args": ("C01", "C10"),
+        "CallDetails.__init__": ("C01",), "make_details": ("C01", "C05", "C08",), "make_kernel_args": ("C01", "C05", "C06", "C10", "C11",),
         "correct_theta_weights": ("C01", "C05"), "convert_magnetism": ("C06",), "dispersion_mesh": ("C01", "C10"),
     },
     "kerneldll": {
@@ -72,19 +72,19 @@ CURATED = {
         "DllKernel.__init__": ("C01", "C11"), "DllKernel._call_kernel": ("C01", "C11"),
     },
     "kernelpy": {
-        "PyModel.make_kernel": ("C09",), "PyInput.__init__": ("C09",), "PyKernel.__init__": ("C09", "C11"), "PyKernel._call_kernel": ("C09",),
-        "_loops": ("C09",), "_create_default_functions": ("C09",), "_create_vector_Iq": ("C09",), "_create_vector_Iqxy": ("C09",),
+        "PyModel.make_kernel": ("C09",), "PyInput.__init__": ("C09",), "PyKernel.__init__": ("C09", "C11"), "PyKernel._call_kernel": ("C01", "C09", "C11", "C14",),
+        "_loops": ("C01", "C09", "C11", "C14",), "_create_default_functions": ("C09",), "_create_vector_Iq": ("C09",), "_create_vector_Iqxy": ("C09",),
     },
     "sasview_model": {
         "SasviewModel.setParam": ("C10",), "SasviewModel.getParam": ("C10",), "SasviewModel.clone": ("C11",), "SasviewModel.run": ("C10",),
-        "SasviewModel.runXY": ("C10",), "SasviewModel.evalDistribution": ("C10",), "SasviewModel.calculate_Iq": ("C10",),
-        "SasviewModel._calculate_Iq": ("C10", "C11"), "SasviewModel.set_dispersion": ("C10",), "SasviewModel._get_weights": ("C10",),
+        "SasviewModel.runXY": ("C10",), "SasviewModel.evalDistribution": ("C10",), "SasviewModel.calculate_Iq": ("C10", "C11",),
+        "SasviewModel._calculate_Iq": ("C10", "C11"), "SasviewModel.set_dispersion": ("C10",), "SasviewModel._get_weights": ("C02", "C10",),
     },
     "bumps_model": {
         "create_parameters": ("C10",), "Model.__init__": ("C10",), "Experiment.__init__": ("C10",), "Experiment.update": ("C10",),
         "Experiment.theory": ("C10",), "Experiment.parameters": ("C10",),
     },
-    "core": {"build_model": ("C15",), "parse_dtype": ("C15",), "reparameterize": ("C16",)},
+    "core": {"build_model": ("C15", "C17"), "parse_dtype": ("C15",), "reparameterize": ("C16",), "load_model": ("C17",), "load_model_info": ("C17",)},
     "generate": {
         "tag_source": ("C17",), "convert_type": ("C15",), "_convert_type": ("C15",), "_fix_tgmath_int": ("C15",), "_tag_float": ("C15",),
         "_split_translation": ("C16",), "_build_translation": ("C16",), "_build_translation_vars": ("C16",), "_build_validity_check": ("C16",),
@@ -92,8 +92,8 @@ CURATED = {
         "make_source": ("C09", "C16", "C17"), "load_template": ("C17",), "model_sources": ("C17",), "_add_source": ("C17",), "kernel_name": ("C17",),
     },
     "modelinfo": {
-        "make_parameter_table": ("C09",), "parse_parameter": ("C09",), "ParameterTable.__init__": ("C09",), "ParameterTable.check_angles": ("C09",),
-        "ParameterTable.check_duplicates": ("C09",), "ParameterTable._set_vector_lengths": ("C09",), "ParameterTable._get_call_parameters": ("C09", "C01"),
+        "make_parameter_table": ("C09",), "parse_parameter": ("C09",), "ParameterTable.__init__": ("C01", "C05", "C09", "C10"), "ParameterTable.check_angles": ("C09",),
+        "ParameterTable.check_duplicates": ("C09",), "ParameterTable._set_vector_lengths": ("C09",), "ParameterTable._get_call_parameters": ("C01", "C06", "C09",),
         "ParameterTable._get_defaults": ("C10",), "make_model_info": ("C09",), "derive_table": ("C16",), "_insert_after": ("C16",), "_simple_insert": ("C16",),
     },
     "convert": {
@@ -418,3 +418,100 @@ def sem_align(mod):
         fn.body = ref_fn.body
         done.add((mod.relpath, qual))
     return done
+
+
+# ------------------------------------------------------------------------------------------------------------------
+# Maintenance helper (not used by any rule): which curated functions lie on a property's evaluation path - closure over a
+# name-based call graph of the reference bodies, from the property's entry points.  It over-approximates relevance (every
+# interface passes through the code generator, yet a generator defect does not make the interfaces disagree), so the
+# CURATED table is kept by hand and this map is only consulted when deciding what to add to it.
+ENTRY = {
+    "C01": ["direct_model:call_kernel", "direct_model:call_Fq"],
+    "C02": ["weights:get_weights", "direct_model:get_mesh", "sasview_model:SasviewModel._get_weights"],
+    "C03": ["direct_model:DataMixin._interpret_data", "direct_model:DataMixin._calc_theory"],
+    "C04": ["direct_model:DataMixin._interpret_data", "direct_model:DataMixin._calc_theory"],
+    "C05": ["direct_model:call_kernel"],
+    "C06": ["direct_model:call_kernel"],
+    "C07": ["product:ProductKernel.Iq", "product:make_product_info", "product:ProductModel.make_kernel", "direct_model:call_kernel", "direct_model:call_Fq"],
+    "C08": ["mixture:MixtureKernel.Iq", "mixture:make_mixture_info", "mixture:MixtureModel.make_kernel", "direct_model:call_kernel"],
+    "C09": ["kernelpy:PyModel.make_kernel", "kernelpy:PyKernel._call_kernel", "modelinfo:make_model_info", "direct_model:call_kernel", "direct_model:call_Fq"],
+    "C10": ["direct_model:DirectModel.__call__", "direct_model:DirectModel.__init__", "direct_model:Iq", "direct_model:Iqxy", "direct_model:Gxi",
+            "sasview_model:SasviewModel.calculate_Iq", "sasview_model:SasviewModel.evalDistribution", "sasview_model:SasviewModel.run",
+            "sasview_model:SasviewModel.runXY", "sasview_model:SasviewModel.setParam", "sasview_model:SasviewModel.set_dispersion",
+            "bumps_model:Experiment.theory", "bumps_model:Experiment.__init__", "bumps_model:Model.__init__"],
+    "C11": ["direct_model:DirectModel.__call__", "direct_model:call_kernel", "direct_model:call_Fq", "sasview_model:SasviewModel.calculate_Iq",
+            "sasview_model:SasviewModel.clone", "kerneldll:DllModel.make_kernel", "kernelpy:PyModel.make_kernel"],
+    "C14": ["direct_model:call_Fq"],
+    "C15": ["core:build_model"],
+    "C16": ["core:reparameterize", "core:build_model"],
+    "C17": ["core:build_model", "custom/__init__:load_custom_kernel_module"],
+    "C18": ["kerneldll:load_dll"],
+    "C19": ["direct_model:Gxi", "direct_model:_make_sesans_transform", "direct_model:DataMixin._calc_theory"],
+    "C20": ["convert:convert_model"],
+}
+# calls through objects that the name-based graph cannot see
+EXTRA_EDGES = {
+    "direct_model:call_kernel": ["kernel:Kernel.Iq", "product:ProductKernel.Iq", "mixture:MixtureKernel.Iq"],
+    "direct_model:call_Fq": ["kernel:Kernel.Fq"],
+    "kernel:Kernel.Fq": ["kerneldll:DllKernel._call_kernel", "kernelpy:PyKernel._call_kernel"],
+    "direct_model:DataMixin._calc_theory": ["resolution:Perfect1D.apply", "resolution:Pinhole1D.apply", "resolution:Slit1D.apply",
+                                            "resolution2d:Pinhole2D.apply", "resolution2d:Slit2D.apply", "sesans:SesansTransform.apply",
+                                            "kerneldll:DllModel.make_kernel", "kernelpy:PyModel.make_kernel", "product:ProductModel.make_kernel",
+                                            "mixture:MixtureModel.make_kernel"],
+    "mixture:MixtureKernel.Iq": ["kernel:Kernel.Iq", "product:ProductKernel.Iq", "mixture:_MixtureParts.__next__", "mixture:_MixtureParts.__init__"],
+    "product:ProductKernel.Iq": ["kernel:Kernel.Fq", "kernel:Kernel.Iq"],
+    "core:build_model": ["kerneldll:load_dll", "generate:make_source", "core:parse_dtype", "kernelpy:PyModel.__init__", "product:ProductModel.__init__",
+                         "mixture:MixtureModel.__init__"],
+    "kerneldll:load_dll": ["kerneldll:make_dll", "kerneldll:DllModel.__init__", "kerneldll:DllModel._load_dll"],
+}
+# names too generic to follow by name alone (they would connect everything to everything)
+GENERIC = {"get", "pop", "append", "extend", "update", "copy", "items", "keys", "values", "join", "split", "format", "sort", "insert", "index",
+           "__init__", "run", "release", "apply", "Iq", "Fq", "make_kernel", "main", "demo", "plot", "show", "read", "write", "close", "add",
+           "lower", "upper", "strip", "replace", "search", "match", "sub", "group", "parameters", "name", "type", "info", "load", "save"}
+
+
+def reach_map():
+    bodies = _bodies()
+    funcs = {}          # "mod:qual" -> FunctionDef
+    by_name = {}        # short name -> ["mod:qual"]
+    for rel, entry in bodies.items():
+        mod = rel[len("sasmodels/"):-3]
+        for qual, text in entry["bodies"].items():
+            key = "%s:%s" % (mod, qual)
+            funcs[key] = ast.parse(text).body[0]
+            by_name.setdefault(qual.split(".")[-1], []).append(key)
+            if qual.endswith(".__init__"):
+                by_name.setdefault(qual.split(".")[-2], []).append(key)      # ClassName(...) constructs
+    edges = {}
+    for key, fn in funcs.items():
+        out = set(EXTRA_EDGES.get(key, []))
+        mod = key.split(":")[0]
+        for n in ast.walk(fn):
+            if isinstance(n, ast.Call):
+                f = n.func
+                nm = f.id if isinstance(f, ast.Name) else f.attr if isinstance(f, ast.Attribute) else None
+                if not nm or nm in GENERIC:
+                    continue
+                cands = by_name.get(nm, [])
+                # prefer same-module targets for bare names; attribute calls reach every candidate
+                if isinstance(f, ast.Name):
+                    same = [c for c in cands if c.split(":")[0] == mod and "." not in c.split(":")[1].replace(".__init__", "")]
+                    cands = same or cands
+                elif isinstance(f.value, ast.Name) and f.value.id == "self":
+                    cls = key.split(":")[1].split(".")[0]
+                    same = [c for c in cands if c.startswith("%s:%s." % (mod, cls))]
+                    cands = same or cands
+                out.update(cands)
+        edges[key] = out
+    result = {}
+    curated = {"%s:%s" % (m, q) for m, t in CURATED.items() for q in t}
+    for prop, entries in ENTRY.items():
+        seen, work = set(), list(entries)
+        while work:
+            k = work.pop()
+            if k in seen or k not in funcs:
+                continue
+            seen.add(k)
+            work.extend(edges.get(k, ()))
+        result[prop] = sorted(seen & curated)
+    return result
